@@ -1,21 +1,28 @@
 /-
-Flex layout: mirror of `flex_layout` (weasyprint/layout/flex.py) as it is *now* (after the two gap
-repairs 9225152 / 1e8fadb), restricted to the document family of the C12 correspondence:
+Flex layout: mirror of `flex_layout` (weasyprint/layout/flex.py) as it is *now* (after the gap repairs
+9225152 / 1e8fadb and the repairs 9739d52 [clamp only in 9.7.5.d], b901ca9 [paddings in
+`main_outer_extra`], b27af5f [auto margins absorb positive free space only], 4ac1c09 [cross position set
+before the auto cross margins], 10a14ee [align-content moves every item by its own offset]),
+restricted to the document family of the C12 correspondence:
 
   a block-level flex container with a definite width, definite or `auto` height, no padding / border
   / margin of its own, `direction: ltr`, whose items are *empty* block `div`s carrying
   order, flex-grow, flex-shrink, flex-basis, width, height, min-*, max-*, margins (px or
   auto) , paddings, borders, align-self in px.
 
-Every step keeps the code's quirks (they are what the correspondence compares against):
-  * 3.A `main_outer_extra` = borders + non-auto margins, *without paddings*;
+Model ↔ Python mapping (flex.py, `flex_layout`):
+  `sortByOrder` = `sorted(children, key=order)`; `initSt`/`step3` = step 3 (3.A `main_outer_extra` = paddings +
+  borders + non-auto margins; 3.E content base size); `mainSizeOf`/`columnAutoHeight` = step 4; `collectLines`/
+  `flexLines` = step 5; `resolveLine` = step 6 / 9.7 (`sizeInflexible` 9.7.3, `freeSpace` 9.7.4, `remainingFree`
+  9.7.5.b, `distribute` 9.7.5.c — *no clamp any more* —, `fixMinMax` 9.7.5.d — clamp to the main-axis
+  min / max, signed adjustment —, `freezeOne` 9.7.5.e); `step7`; `lineCrosses` = step 8; `stretchLines` = step 9;
+  `step11`; `step12` (auto margins take `max(0, free) / n`, justify-content keeps `min(0, free)`); `step13`
+  (13 and 14: cross position first, then auto cross margins or align-self); `alignLines`/`step16` = 15, 16.
+Every step keeps the code's remaining quirks (they are what the correspondence compares against):
   * 9.7.5 `initial_free_space *= unfrozen_factor_sum` is cumulative over the passes, the
-    `int(log10 ·)` magnitude test, `min_max` (style min-width and max-width, whatever the main axis) applied
-    inside 9.7.5.c, so that 9.7.5.d only ever sees min violations of the main-axis minimum;
-  * step 7 zeroes `auto` top/bottom margins whatever the main axis;
-  * step 12 divides the free space between auto margins even when it is negative;
-  * step 13 does not set the cross position of an item that has auto cross margins;
-  * step 16 moves every item of a line to the position of the *last* item of the line.
+    `int(log10 ·)` magnitude test;
+  * 3.E the content base size is already clamped by the style min/max;
+  * step 7 zeroes `auto` top/bottom margins whatever the main axis.
 All coordinates are relative to the content box of the container.  Lengths are `Rat`; `auto` is
 `none`; a maximum of `none` is `inf`.  No Mathlib.
 -/
@@ -170,9 +177,9 @@ def initSt (row : Bool) (i : Item) (px py : Rat) : St :=
   let (base, extra) :=
     match usedBasis row i with
     | some q =>
-      -- 3.A: borders and non-auto margins; paddings are not counted
-      (q, if row then i.bl + i.br + lenOr0 i.ml + lenOr0 i.mr
-             else i.bt + i.bb + lenOr0 i.mt + lenOr0 i.mb)
+      -- 3.A: borders, paddings and non-auto margins
+      (q, if row then i.bl + i.br + i.pl + i.pr + lenOr0 i.ml + lenOr0 i.mr
+             else i.bt + i.bb + i.pt + i.pb + lenOr0 i.mt + lenOr0 i.mb)
     | none =>
       -- 3.E
       if row then
@@ -265,14 +272,14 @@ def scaledShrinkSum (line : List St) : Rat :=
 def growSum (line : List St) : Rat :=
   sumBy (fun s => if s.frozen then 0 else s.it.grow) line
 
-/-- 9.7.5.c for one unfrozen item (clamp by `min_max` included). -/
+/-- 9.7.5.c for one unfrozen item (the size is not clamped here: that is 9.7.5.d). -/
 def distributeOne (grow : Bool) (remaining gsum ssum : Rat) (s : St) : Except PyErr St :=
   if s.frozen then .ok s
   else if grow then
     if gsum == 0 then .error (.zeroDivision "flex.grow_ratio")
-    else .ok { s with target := styleClampW s.it (s.base + remaining * (s.it.grow / gsum)) }
-  else if ssum == 0 then .ok { s with target := styleClampW s.it s.base }
-  else .ok { s with target := styleClampW s.it (s.base + remaining * (s.base * s.it.shrink / ssum)) }
+    else .ok { s with target := s.base + remaining * (s.it.grow / gsum) }
+  else if ssum == 0 then .ok { s with target := s.base }
+  else .ok { s with target := s.base + remaining * (s.base * s.it.shrink / ssum) }
 
 def mapExcept {α β ε} (f : α → Except ε β) : List α → Except ε (List β)
   | [] => .ok []
@@ -282,12 +289,13 @@ def mapExcept {α β ε} (f : α → Except ε β) : List α → Except ε (List
       | .error e => .error e
       | .ok ys => .ok (y :: ys)
 
-/-- 9.7.5.d for one item. -/
-def fixMin (row : Bool) (s : St) : St :=
+/-- 9.7.5.d for one item: `clamped = max(min, min(target, max))`, `adjustment = clamped - target`
+(positive for a min violation, negative for a max violation). -/
+def fixMinMax (row : Bool) (s : St) : St :=
   if s.frozen then { s with adj := 0 }
   else
-    let mn := max (s.minMain row) (capMax s.target (s.maxMain row))
-    if s.target < mn then { s with adj := mn - s.target, target := mn } else { s with adj := 0 }
+    let clamped := clamp (s.minMain row) s.target (s.maxMain row)
+    { s with adj := clamped - s.target, target := clamped }
 
 /-- 9.7.5.e for one item. -/
 def freezeOne (adjustments : Rat) (s : St) : St :=
@@ -314,7 +322,7 @@ def distribute (grow : Bool) (remaining : Rat) (line : List St) : Except PyErr (
 
 /-- 9.7.5.d and 9.7.5.e -/
 def finishPass (row : Bool) (line : List St) : List St :=
-  let line := line.map (fixMin row)
+  let line := line.map (fixMinMax row)
   line.map (freezeOne (sumBy St.adj line))
 
 /-- One pass of the `while` loop of 9.7.5; returns the new line and `initial_free_space`. -/
@@ -468,8 +476,9 @@ def placeMain (row : Bool) (j : Justify) (free gap growths : Rat) (n : Nat) :
 def step12 (c : Container) (mainSize growths : Rat) (line : List St) : List St :=
   let free := lineFree c.row mainSize c.mainGap line
   let margins := countAutoMain c.row line
+  -- 12.1: auto margins only absorb positive free space; the overflow is left to justify-content
   let (line, free) :=
-    if margins != 0 then (line.map (setAutoMain c.row (free / margins)), (0 : Rat)) else (line, free)
+    if margins != 0 then (line.map (setAutoMain c.row (max 0 free / margins)), min 0 free) else (line, free)
   let j := effectiveJustify c.reverse c.justify
   placeMain c.row j free c.mainGap growths line.length line (justifyStart j free line.length) true
 
@@ -479,7 +488,11 @@ def isEndAlign : Align → Bool
   | .«end» | .selfEnd | .flexEnd => true
   | _ => false
 
-def step13 (row : Bool) (alignItems : Align) (cross posCross : Rat) (s : St) : St :=
+def setCross (row : Bool) (v : Rat) (s : St) : St :=
+  if row then { s with posY := v } else { s with posX := v }
+
+/-- Steps 13 (auto cross margins) and 14 (align-self) for an item already put at the cross start of its line. -/
+def step13Aux (row : Bool) (alignItems : Align) (cross posCross : Rat) (s : St) : St :=
   let autos : Nat :=
     if row then (if s.mt.isNone then 1 else 0) + (if s.mb.isNone then 1 else 0)
     else (if s.ml.isNone then 1 else 0) + (if s.mr.isNone then 1 else 0)
@@ -501,6 +514,11 @@ def step13 (row : Bool) (alignItems : Align) (cross posCross : Rat) (s : St) : S
       else 0
     if row then { s with posY := posCross + off } else { s with posX := posCross + off }
 
+/-- Steps 13 and 14 for one item: `setattr(child, position, position_cross)` comes first, whatever the
+margins, then the auto cross margins or the alignment. -/
+def step13 (row : Bool) (alignItems : Align) (cross posCross : Rat) (s : St) : St :=
+  step13Aux row alignItems cross posCross (setCross row posCross s)
+
 def step13Lines (row : Bool) (alignItems : Align) : List Line → Rat → List Line
   | [], _ => []
   | l :: rest, pos =>
@@ -508,14 +526,6 @@ def step13Lines (row : Bool) (alignItems : Align) : List Line → Rat → List L
       step13Lines row alignItems rest (pos + l.cross)
 
 /-! ### steps 15–16: align-content -/
-
-def lastCross? (row : Bool) : List St → Option Rat
-  | [] => none
-  | [s] => some (if row then s.posY else s.posX)
-  | _ :: rest => lastCross? row rest
-
-def setCross (row : Bool) (v : Rat) (s : St) : St :=
-  if row then { s with posY := v } else { s with posX := v }
 
 def addCross (row : Bool) (v : Rat) (s : St) : St :=
   if row then { s with posY := s.posY + v } else { s with posX := s.posX + v }
@@ -535,20 +545,25 @@ def alignContentStep (ac : AlignContent) (extra : Rat) (n : Nat) : Rat :=
   | .spaceEvenly => extra / (n + 1 : Nat)
   | _ => 0
 
-/-- Step 16 (only run when there is more than one line). -/
+/-- `line_translate` of step 16: the running `cross_translate` plus the offset of the
+`align-content` value when there is extra cross space. -/
+def lineTranslate (ac : AlignContent) (extra : Rat) (n : Nat) (tr : Rat) : Rat :=
+  if extra == 0 then tr
+  else match alignContentShift ac extra n with
+    | some sh => tr + sh
+    | none => tr
+
+/-- Step 16 (only run when there is more than one line): every item of a line is moved by the
+line's own translation. -/
 def step16 (row : Bool) (ac : AlignContent) (extra gap : Rat) (n : Nat) :
     List Line → Rat → Bool → List Line
   | [], _, _ => []
   | l :: rest, tr, first =>
     let tr := if first then tr else tr + gap
-    let items := l.items.map (addCross row tr)
+    let items := l.items.map (addCross row (lineTranslate ac extra n tr))
     if extra == 0 then
       { l with items := items } :: step16 row ac extra gap n rest tr false
     else
-      let items :=
-        match alignContentShift ac extra n, lastCross? row items with
-        | some sh, some cur => items.map (setCross row (cur + sh))
-        | _, _ => items
       { l with items := items } :: step16 row ac extra gap n rest (tr + alignContentStep ac extra n) false
 
 /-! ### the whole layout -/
